@@ -54,17 +54,17 @@ CLAIMED = {
          "Props/C06.v: C06_tool, C06_level_bybox / _byoffset / _byfile, C06_mode_same_files, C06_mode_byfile, C06_level_header, C06_pair, C06_any_layout, C06_lock_step, C06_box_contents, C06_refuses. The executable model Writers.Combine.combine_tool is compared with the output directory of combine byte for byte / token for token on pairs of generated plotfiles x selections in all layout relations (identical / permuted / unrelated / mixed / escalating), and with the image of the extracted specification combine_pure; different meshes (incl. geometries where physical bounds cannot tell them apart) must be refused before any write; the independent reader decides the property.",
          "field-selection string parsing is Python's (resolved names enter the model); text model restrictions of C02; float tokens compared by value.",
          "DESIGN.md section 3 C06"),
- 'C11': ("Coq proof (per-file cooking scan on any box list for any recipe function; level theorem: per-file results mapped back to box order for any layout; cooked box = kept components bit for bit followed by the recipe's; recorded min/max are true extrema) + byte-for-byte directory correspondence + Cantera oracle for the built-in recipes",
-         "Props/C11.v: C11_scan, C11_level_any_layout, C11_box_contents, C11_minmax (recipe is a parameter). Chef(...).cook() is run with generated user recipes (.py files: 1-3 components, arithmetic and position-dependent) x kept-field strings x serial / controlled pool, and with the built-in recipes HRR / ENT / SRi / SDi / RRi on Cantera h2o2 plotfiles (species lists, 'all', reactions, kept temp / Y, cells without a state, varying pressures); the output directory is compared byte for byte with the extracted model fed the table of recipe results, and parsed by the independent reader (names, kept bit-identical, new = recipe(box), min/max, taste).",
-         "partial: header text by correspondence only; the values of the built-in recipes are Cantera's (independent SolutionArray evaluation, 1e-9 relative), not modelled.",
+ 'C11': ("Coq proof of the whole tool for user recipes (refinement: chef recipe keep names (pf_disk pf) = pf_disk (chef_spec ...) for every well-formed 3D plotfile, layout, kept list and recipe function; built from the per-file scan, the level theorem, the level-header rewrite and file-listing irrelevance; cooked box = kept components bit for bit followed by the recipe's; recorded min/max are true extrema) + byte-for-byte directory correspondence + Cantera oracle for the built-in recipes",
+         "Props/C11.v: C11_tool, C11_scan, C11_level_any_layout, C11_file_listing_irrelevant, C11_box_contents, C11_minmax (recipe is a parameter). Chef(...).cook() is run with generated user recipes (.py files: 1-3 components, arithmetic and position-dependent, results of type float64 / bool / float32 / int64) x kept-field strings x serial / controlled pool, and with the built-in recipes HRR / ENT / SRi / SDi / RRi on Cantera h2o2 plotfiles (species lists, 'all', reactions, kept temp / Y, cells without a state, varying pressures); the output directory is compared byte for byte with the extracted model fed the table of recipe results, and parsed by the independent reader (names, kept bit-identical, new = recipe(box), min/max, taste).",
+         "the decimal printing of the min/max rows is outside the model (bit-pattern tokens, compared by value; the byte-level comparison is skipped for components with NaN or zeros of both signs); the values of the built-in recipes are Cantera's (independent SolutionArray evaluation, 1e-9 relative), not modelled; the solution-array form of user recipes shares the skeleton and is covered by the built-in stream only.",
          "DESIGN.md section 3 C11"),
- 'C17': ("Coq proof (ghost stripping keeps exactly the interior cells for every ghost width; recorded min/max are true extrema) + byte-for-byte correspondence of the converted level directories + independent reader / taste with box coordinates",
-         "Props/C17.v: C17_interior, C17_minmax. The executable model Writers.Chk2plt.convert_level (state-file scan, ghost stripping, flooring table, gradp / I_R at recorded offsets, offset-sorted tasks mapped back to box order) is compared byte for byte with chk2plt's output on synthetic checkpoints (1-3 levels, 1-3 ghost cells, anisotropic shifted domains, independent layouts per data subset, all flag combinations, species from list or reference plotfile); the independent reader checks fields, levels, boxes, time, geometry, interior values, rescaled mass fractions, min/max; taste with box coordinates; the checkpoint tree is hashed before and after.",
+ 'C17': ("Coq proof (ghost stripping keeps exactly the interior cells for every ghost width; the scan of a state file converts every box in file order; level theorem: for any layout of the state boxes the per-file results are mapped back to box order and the written level is well-formed; recorded min/max are true extrema) + byte-for-byte correspondence of the converted level directories + independent reader / taste with box coordinates",
+         "Props/C17.v: C17_interior, C17_minmax, C17_scan, C17_level_any_layout. The executable model Writers.Chk2plt.convert_level (state-file scan, ghost stripping, flooring table, gradp / I_R at recorded offsets, offset-sorted tasks mapped back to box order) is compared byte for byte with chk2plt's output on synthetic checkpoints (1-3 levels, 1-3 ghost cells, anisotropic shifted domains, independent layouts per data subset, all flag combinations, species from list or reference plotfile); the independent reader checks fields, levels, boxes, time, geometry, interior values, rescaled mass fractions, min/max; taste with box coordinates; the checkpoint tree is hashed before and after (incl. one checkpoint with a state FAB above 4 MiB per run).",
          "partial: the checkpoint Header parse, dx = domain / grid, box bounds and the text writers are checked at property level only (not modelled); flooring division is numpy's (table); two defects repaired by fix: commits, see KNOWN_FINDINGS.txt.",
          "DESIGN.md section 3 C17"),
  'C14': ("Coq proof (induction lifting per-operation preservation/refinement to every finite pipeline and every intermediate state; strain-all identity; cook-then-combine identity on box contents) + hop-by-hop correspondence of the composed extracted models with the real tool chain",
          "Props/C14.v: C14_pipeline, C14_colander_chain and C14_strain_combine_chain (hypotheses discharged for every sequence of colander and combine runs: succeeds, equals the composed specifications, every intermediate directory is a good plotfile), C14_outputs_accepted (taste accepts them), C14_strain_all_identity, C14_cook_combine. Pipelines over {colander, chef, combine with sibling, combine with ancestor} (all sequences of length <= 2 over the kinds, sampled up to 4) are run on generated plotfiles; after every hop the output is parsed by the independent reader and compared with the composed pure numpy operations, validated by taste (with and without box coordinates), and compared byte for byte with the composition of the extracted Writers.* models.",
-         "the per-operation hypotheses of C14_pipeline are proved at tool level for colander and combine; for chef only for the binary core and level mapping (C11), otherwise established by correspondence; chk2plt as a source is covered by C17.",
+         "the per-operation hypotheses of C14_pipeline are proved at tool level for colander and combine; for chef one hop is proved at tool level (C11_tool) but its output carries bit-pattern min/max tokens, so chains through chef are established by correspondence; chk2plt as a source is covered by C17.",
          "DESIGN.md section 3 C14"),
  'C12': ("Coq proof (ordered map/imap pairing is independent of the execution order; file-system confluence of tasks touching disjoint files for every execution order; order-free keyed painting) + exhaustive task-order runs of every tool under a controlled pool with audited task file sets",
          "Props/C12.v: C12_ordered_pairing, C12_unordered_needs_keys, C12_fs_confluence, C12_painting_order_free. 13 tool scenarios (reader selections / iteration, taste, colander, combine x3 modes, chef, mandoline 2D / 3D, pestle, whip, chk2plt) are run under the submission order and 27 other task orders (all 24 orders of every pool call with <= 4 tasks, reverse, random), and in serial mode where it exists; returned values and the sha256 of every output file must equal the baseline; every task's open() calls are audited and the independence hypothesis of the confluence theorem is checked on every pool call; thorough tier adds real process pools with 1, 2, 16 workers.",
